@@ -107,6 +107,11 @@ func c20Handler(w http.ResponseWriter, r *http.Request) {
 		return
 	}
 	time.Sleep(time.Duration(len(key)%3) * time.Millisecond)
+	if strings.HasSuffix(key, "3") || strings.HasSuffix(key, "7") {
+		// some resources come zst-encoded from the upstream (pike decodes them on receipt)
+		h.Set("Content-Encoding", "zst")
+		body = encodeBody("zst", body)
+	}
 	w.WriteHeader(200)
 	if r.Method != http.MethodHead {
 		_, _ = w.Write(body)
